@@ -39,6 +39,8 @@ type CaseSpec struct {
 	Prof string `json:"prof,omitempty"` // real: small|big|limit|readonly; script: scope name
 	N    int    `json:"n,omitempty"`    // number of operations
 	Idx  int    `json:"idx,omitempty"`  // script/ev: index into an enumerated scope
+	// Thorough selects the thorough tier's enumeration of a scope
+	Thorough bool `json:"thorough,omitempty"`
 }
 
 const header = "From Coq Require Import List Bool Arith String NArith.\nImport ListNotations.\nFrom Mv Require Import Common.Bytes Model.Entry Model.Remote Harness.RemoteH.\nOpen Scope string_scope."
@@ -85,7 +87,7 @@ func main() {
 	defer os.RemoveAll(baseDir)
 	must(os.Setenv("MUTAGEN_DATA_DIRECTORY", baseDir+"/data"))
 
-	w := hx.NewWriter(cfg, header, "rcase", "remote_failures", 60)
+	w := hx.NewWriter(cfg, header, "rcase", "remote_failures", 200)
 	w.Rule = "a case = one session: the table of snapshots occurring in it and, per operation, the outputs of the directly used endpoint, of the endpoint behind client/server, and the decoded wire messages (real and script cases), or one response handed to ensureValid (ev cases); distinct = distinct Coq terms; non-trivial (real/script) = at least two successful scans and at least one of: staging that filtered/required paths, a successful transition, a scan error, a nil-content snapshot; (ev) = every case"
 	add := func(spec CaseSpec, origin string) {
 		if w.Aborted {
@@ -123,7 +125,7 @@ func main() {
 	scopes := map[string]string{}
 	for _, sc := range scriptScopes(cfg.Thorough()) {
 		for i := 0; i < sc.count; i++ {
-			add(CaseSpec{Mode: sc.mode, Prof: sc.name, Idx: i, Seed: int64(i)}, "exhaustive")
+			add(CaseSpec{Mode: sc.mode, Prof: sc.name, Idx: i, Seed: int64(i), Thorough: cfg.Thorough()}, "exhaustive")
 		}
 		scopes[sc.name] = sc.describe
 	}
@@ -133,7 +135,11 @@ func main() {
 	r := cfg.Rand
 	nReal, nScript := 160, 160
 	if cfg.Thorough() {
-		nReal, nScript = 6000, 20000
+		nReal, nScript = 3000, 6000
+	}
+	if os.Getenv("VERIF_REAL_ONLY") != "" { // development aid: many real cases, nothing else
+		fmt.Sscan(os.Getenv("VERIF_REAL_ONLY"), &nReal)
+		nScript = 0
 	}
 	for i := 0; i < nScript; i++ {
 		add(CaseSpec{Mode: "script", Prof: "random", Seed: r.Int63(), N: 4 + r.Intn(12)}, "random")
